@@ -28,9 +28,30 @@ type vhSeqStore struct {
 	incrFails    int
 	faults       bool
 	getCalls     int
+	// a second goroutine of this node: at any storage call made while the allocator's mutex is not held it may run one
+	// nextSequence() to completion (other == 1: armed, 2: done)
+	alloc   *sequenceAllocator
+	other   int
+	handedB []uint64
+}
+
+// otherCaller: the second goroutine's chance to run. While the mutex is held it would block, so it cannot run here.
+func (s *vhSeqStore) otherCaller(ctx context.Context) {
+	if s.other != 1 || vLockHeld(&s.alloc.mutex) {
+		return
+	}
+	if vNondetBool() {
+		s.other = 2
+		vCover("other-caller-ran-at-unlocked-storage-call")
+		seq, err := s.alloc.nextSequence(ctx)
+		if err == nil {
+			s.handedB = append(s.handedB, seq)
+		}
+	}
 }
 
 func (s *vhSeqStore) Incr(ctx context.Context, k string, amt, def uint64, exp uint32) (uint64, error) {
+	s.otherCaller(ctx)
 	if s.faults && vNondetBool() {
 		s.incrFails++
 		return 0, vhErrStore
@@ -50,6 +71,7 @@ func (s *vhSeqStore) Incr(ctx context.Context, k string, amt, def uint64, exp ui
 }
 
 func (s *vhSeqStore) AddRaw(ctx context.Context, k string, exp uint32, v []byte) (bool, error) {
+	s.otherCaller(ctx)
 	if s.faults && vNondetBool() {
 		s.releaseFails++
 		return false, vhErrStore
@@ -241,4 +263,38 @@ func VHarness_C07_ReleaseSingle() {
 		vAssert(len(st.released) == 2 && st.released[1].lo == from && st.released[1].hi == to, "releaseSequenceRange records exactly [from,to]")
 		vAssert(n == to-from+1, "releaseSequenceRange count")
 	}
+}
+
+// VHarness_C07_ConcurrentCaller: one allocator operation (release of the idle batch, allocation, allocation above a
+// floor) while a second goroutine of the same node allocates a sequence at any storage call the operation makes
+// without holding the allocator's mutex. Every number is still kept, handed out or released exactly once.
+func VHarness_C07_ConcurrentCaller() {
+	ctx := context.Background()
+	s, st := vhNewAllocator(vParam("faults", 0) == 1)
+	st.alloc, st.other = s, 1
+	pre := vhAllocState{s.last, s.max}
+	var handed []uint64
+	switch vNondetRange(vParam("modelo", 0), vParam("modehi", 2)) {
+	case 0:
+		vCover("concurrent-release-unused")
+		s.releaseUnusedSequences(ctx)
+	case 1:
+		vCover("concurrent-next")
+		if seq, err := s.nextSequence(ctx); err == nil {
+			handed = append(handed, seq)
+		}
+	case 2:
+		vCover("concurrent-greater-than")
+		e := vNondetU64()
+		vAssume(e < 1<<62)
+		if seq, _, err := s.nextSequenceGreaterThan(ctx, e); err == nil {
+			handed = append(handed, seq)
+			vAssert(seq > e, "nextSequenceGreaterThan: result greater than the existing sequence")
+		}
+	}
+	handed = append(handed, st.handedB...)
+	if len(handed) == 2 {
+		vAssert(handed[0] != handed[1], "two callers never receive the same sequence")
+	}
+	vhPartitionLaw(s, st, pre, handed, true, "concurrent callers")
 }
